@@ -56,8 +56,26 @@ def _payload_first_diff(p):
     return _first_diff(impl["items"], si)
 
 
+def _until_after(c, p):
+    """UNTIL one period (+ a week) after the last instant either side produced: bounds the BYSETPOS-free
+    re-run while keeping the whole period of that instant inside the horizon (negative positions count
+    from the period's end)"""
+    f = c["freq"] if 0 <= c["freq"] <= 6 else 0
+    last = max(p["impl"]["items"] + p["spec"]["items"] + [0]) + RC.PERIOD_SECS[f] + 8 * 86400
+    last = min(last, RC.MAXORD * 86400 + 86399)
+    o, sod = divmod(last, 86400)
+    d = datetime.date.fromordinal(max(o, 1))
+    u = {"kind": "naive", "y": d.year, "m": d.month, "d": d.day, "H": sod // 3600, "M": sod // 60 % 60,
+         "S": sod % 60, "us": 0}
+    if c["start"]["kind"] == "aware":
+        u["kind"] = "aware"
+        u["same_tz"] = True
+    return u
+
+
 def match_weekno_year_boundary(p):
-    """D1c: BYWEEKNO supplied; the first instant on which implementation and specification differ
+    """D1c: BYWEEKNO supplied with a member +-52 / +-53 (the guard's complement of
+    C01_wnomask_correct_guarded); the first instant on which implementation and specification differ
     lies in a week that straddles a year boundary (with BYSETPOS: the same holds for the rule with
     BYSETPOS removed, because a missed boundary day shifts every position of that period)."""
     if p.get("kind") != "spec":
@@ -65,11 +83,16 @@ def match_weekno_year_boundary(p):
     c = p["input"]
     if not c.get("byweekno") or p["impl"]["status"] == "R" and p["impl"]["exn"] != 1:
         return False
+    if not any(abs(n) >= 52 for n in c["byweekno"]):
+        # C01_wnomask_correct_guarded: members within -51..51 are handled correctly by the code, so a
+        # difference on such a rule is NOT this finding
+        return False
     if c.get("bysetpos"):
         c2 = dict(c)
         c2["bysetpos"] = None
         c2["count"] = None
         c2["N"] = 600       # a missed / extra boundary day shifts positions: look at the whole horizon
+        c2["until"] = _until_after(c, p)
         orc = RC.TimedOracle(ORACLE_EXE)
         try:
             r = RC.evaluate(c2, orc)
@@ -115,6 +138,7 @@ def match_weekly_easter_year_end(p):
         c2["bysetpos"] = None
         c2["count"] = None
         c2["N"] = 600       # a missed / extra boundary day shifts positions: look at the whole horizon
+        c2["until"] = _until_after(c, p)
         orc = RC.TimedOracle(ORACLE_EXE)
         try:
             r = RC.evaluate(c2, orc)
@@ -446,12 +470,28 @@ def main():
                 "C01_eastermask_correct_partial": "years 1583..4099 (the range of C19's theorem); the 7-day "
                                                   "extension is refuted by C01_eastermask_extension_refuted "
                                                   "= F-C01-easter-week",
-                "C01_cl_weekday_plain_correct": "no nth-weekday mask (plain BYDAY)"},
+                "C01_cl_weekday_plain_correct": "no nth-weekday mask (plain BYDAY)",
+                "C01_day_filter_correct_partial": "day-selecting parts among BYMONTH/BYMONTHDAY/BYYEARDAY/plain BYDAY",
+                "C01_day_filter_correct_weekno_guarded": "as above plus BYWEEKNO with members in -51..51, years 2..9999",
+                "C01_day_filter_correct_guarded": "as above plus BYEASTER when 1583 <= year <= 4099",
+                "C01_day_filter_correct_monthly_nth_guarded": "MONTHLY with nth weekdays, days of the cursor's month, "
+                                                              "same BYWEEKNO / BYEASTER guards",
+                "C01_day_filter_correct_yearly_nth_guarded": "YEARLY without BYMONTH with nth weekdays, same guards",
+                "C01_yearly_pass_days_correct": "YEARLY, plain BYDAY, same BYWEEKNO / BYEASTER guards, years 2..9999",
+                "C01_yearly_pass_is_spec_step": "as above, no BYSETPOS, iterinfo = rebuild from the initial one",
+                "C01_timeset_is_spec": "FREQ coarser than HOURLY",
+                "C01_rrule_iter_correct_partial": "yfam: YEARLY, spec_wf, plain BYDAY, no BYSETPOS/BYEASTER/COUNT/"
+                                                  "UNTIL, BYWEEKNO in -51..51; start year >= 2; r_y + n*interval <= 9999",
+                "C01_rrule_iter_correct_easter_partial": "same family with BYEASTER, all passes within 1583..4099"},
             "not_proved_correspondence_only": [
                 "rrule_iter_correct (model = spec for every rule in spec_wf): FALSE of the code (4 refuted "
-                "witnesses); not proved even under the findings' guards",
-                "composition of the clause / mask theorems into day_filter_correct over day_rejected, and the "
-                "link normalised rule <-> raw arguments (sort_set membership)",
+                "witnesses); under guards proved only for the family of C01_rrule_iter_correct_partial (YEARLY, "
+                "no BYSETPOS/COUNT/UNTIL/BYEASTER/nth weekday, BYWEEKNO within -51..51, start year >= 2, passes "
+                "within year 9999)",
+                "day_filter_correct for YEARLY+BYMONTH rules with nth-weekday BYDAY (mask proved, layer 3, not "
+                "plugged into C01_day_filter_correct_*), and for the 7-day extension of WEEKLY rules",
+                "COUNT / UNTIL in the loop theorem (the spec stops period-wise, the code at the first candidate "
+                "after UNTIL: stop reasons differ, items do not), other frequencies; see notes/rr.md",
                 "MONTHLY and WEEKLY day sets (mdayset, wdayset), BYSETPOS selection, BYWEEKNO/nth/easter "
                 "clauses inside the filter",
                 "advance_correct as a statement about the whole loop (cursor of pass k = period k); proved: "
